@@ -1,5 +1,6 @@
 import AvoVerif.Drv.Common
 import AvoVerif.Model.Cleanup
+import AvoVerif.Props.C10Accept
 namespace Avo.Drv.C10
 open Avo.Drv Avo.Func Avo.Reg Avo.Cleanup
 
@@ -41,86 +42,81 @@ def runPass (pass : String) (ns : List XNode) : Option (List XNode) :=
   if pass == "jumps" then some (pruneJumps ns)
   else if pass == "labels" then some (pruneLabels ns)
   else if pass == "selfmoves" then some (pruneSelfMoves ns)
+  else if pass == "compile" then some (pruneSelfMoves (pruneLabels (pruneJumps ns)))
   else none
-
-def isSub : List XNode → List XNode → Bool
-  | [], _ => true
-  | _ :: _, [] => false
-  | a :: as, b :: bs => if a == b then isSub as bs else isSub (a :: as) bs
 
 /-- successor sets by uid (`none` = fall off the end); `none` if the CFG cannot be built -/
 def succByUid (ns : List XNode) : Option (List (Nat × List (Option Nat))) :=
   match buildCFG (ns.map XNode.toNode) with
   | .error _ => none
   | .ok g =>
-    let is := xs ns
+    let is := xinstrs ns
     some ((is.zip g.succ).map (fun (i, ss) => (i.uid, ss.map (fun s => s.bind (fun k => (is[k]?).map (·.uid))))))
-where xs : List XNode → List XInstr
-  | [] => []
-  | .instr i :: r => i :: xs r
-  | _ :: r => xs r
 
 def dedupSort (xs : List (Option Nat)) : List Int :=
   ((xs.map (fun x => match x with | none => (-1 : Int) | some n => (n : Int))).toArray.qsort (· < ·)).toList.eraseDups
-
-/-- A semantic no-op move: a plain general-purpose register move onto itself. -/
-def semanticNoop (i : XInstr) : Bool :=
-  match i.ops with
-  | [.reg a, .reg b] => decide (a = b) && movKind i.opcode a b == .plain
-  | _ => false
 
 /-- the point after the last node ("fall off the end"), made explicit so that a label
 left at the very end still denotes a program point -/
 def endMarker : XNode := .instr ⟨1000000000, ⟨false, false, true, none⟩, "END", []⟩
 
-def accept (pass : String) (orig0 res0 : List XNode) : String :=
-  if !isSub res0 orig0 then "bad-not-a-sublist" else
+/-- Second, independent judgement on the control-flow graphs (model of LabelTarget+CFG, `Model/Func`): every
+surviving instruction has the same successors once the deleted instructions are contracted to the instruction
+that followed them. Only defined when the original function has a well-formed CFG. -/
+def cfgVerdicts (orig0 res0 : List XNode) : List Verdict :=
   let orig := orig0 ++ [endMarker]
   let res := res0 ++ [endMarker]
-  let oi := succByUid.xs orig
-  let ri := succByUid.xs res
+  let oi := xinstrs orig
+  let ri := xinstrs res
   let deleted := oi.filter (fun i => !ri.any (·.uid == i.uid))
   match succByUid orig with
-  | none => "ok"     -- the function has no well-defined control flow (reported later by LabelTarget/CFG)
+  | none => []     -- no well-defined control flow (reported by LabelTarget/CFG): nothing to compare
   | some os =>
     match succByUid res with
-    | none => "bad-cfg-broken"
+    | none => [.cfgBroken]
     | some rs =>
-      -- every deleted instruction must be removable: a jump to the very next instruction, or a no-op move
       let idxOf (uid : Nat) : Option Nat := oi.findIdx? (·.uid == uid)
-      let bad := deleted.find? (fun d =>
-        let ss := dedupSort ((os.find? (·.1 == d.uid)).map (·.2) |>.getD [])
-        let nextUid : Int := match (idxOf d.uid).bind (fun k => oi[k+1]?) with | some n => n.uid | none => -1
-        if pass == "jumps" then !(d.cf.isBranch && !d.cf.isCond && ss == [nextUid])
-        else if pass == "selfmoves" then !(semanticNoop d && ss == [nextUid])
-        else true)
-      match bad with
-      | some d => s!"bad-deleted uid={d.uid}"
-      | none =>
-        -- contract deleted instructions: each has the single successor `next`
-        let contract (fuel : Nat) (u : Option Nat) : Option Nat :=
-          (List.range fuel).foldl (fun u _ => match u with
-            | none => none
-            | some v => if deleted.any (·.uid == v) then
-                ((idxOf v).bind (fun k => oi[k+1]?)).map (·.uid) else some v) u
-        let mism := rs.find? (fun (uid, ss) =>
-          let want := ((os.find? (·.1 == uid)).map (·.2) |>.getD []).map (contract (deleted.length + 1))
-          dedupSort ss != dedupSort want)
-        match mism with
-        | some (uid, _) => s!"bad-successors uid={uid}"
-        | none => "ok"
+      let contract (fuel : Nat) (u : Option Nat) : Option Nat :=
+        (List.range fuel).foldl (fun u _ => match u with
+          | none => none
+          | some v => if deleted.any (·.uid == v) then
+              ((idxOf v).bind (fun k => oi[k+1]?)).map (·.uid) else some v) u
+      (rs.filter (fun (uid, ss) =>
+        let want := ((os.find? (·.1 == uid)).map (·.2) |>.getD []).map (contract (deleted.length + 1))
+        dedupSort ss != dedupSort want)).map (fun (uid, _) => Verdict.successors uid)
+
+/-- All objections, most severe first; the class that is a listed finding (a label referenced only by a
+non-branch instruction was deleted) comes LAST so that it can never hide another failure on the same input. -/
+def verdicts (orig res : List XNode) : List Verdict :=
+  let w := walk res orig res
+  let isNB : Verdict → Bool := fun v => match v with | .labelNonBranchRef _ => true | _ => false
+  w.filter (fun v => !isNB v) ++ cfgVerdicts orig res ++ w.filter isNB
+
+def renderVerdict : Verdict → String
+  | .notSublist => "bad-not-a-sublist"
+  | .deleted uid => s!"bad-deleted uid={uid}"
+  | .labelBranchRef l => s!"bad-label-deleted-branch-ref l={hexStr l}"
+  | .labelNonBranchRef l => s!"bad-label-deleted-nonbranch-ref l={hexStr l}"
+  | .cfgBroken => "bad-cfg-broken"
+  | .successors uid => s!"bad-successors uid={uid}"
+
+def accept (orig res : List XNode) : String :=
+  match verdicts orig res with
+  | [] => "ok"
+  | v :: _ => renderVerdict v
 
 def handle : Handler
   | "cleanup" :: pass :: rest => do
     let (ns, _) ← listOf nodeTok rest
     let r ← runPass pass ns
     some (renderNodes r)
-  | "accept-cleanup" :: pass :: rest => do
+  | "accept-cleanup" :: _pass :: _tag :: rest => do
+    -- the judgement does not depend on which pass produced the output (Props/C10Accept.lean, `walk_sound`)
     let (ns, rest) ← listOf nodeTok rest
     match rest with
     | "=>" :: rest =>
-      let (rs, _) ← listOf (resTok (succByUid.xs ns)) rest
-      some (accept pass ns rs)
+      let (rs, _) ← listOf (resTok (xinstrs ns)) rest
+      some (accept ns rs)
     | _ => none
   | _ => none
 
